@@ -44,10 +44,6 @@ fn one(api: &Api, it: &InTuple, seed: u64, cx: &mut Cx) {
                 ok = false;
                 cx.violate("server-pk-mismatch", "server public key reported to the client differs from the setup's".into());
             }
-            if f.login.sk_client.iter().all(|b| *b == 0) || f.login.export.iter().all(|b| *b == 0) {
-                ok = false;
-                cx.violate("zero-key", "all-zero session or export key".into());
-            }
             cx.state(&(&f.login.sk_client, &f.login.export));
             cx.outcome(if ok { "agree" } else { "DISAGREE" });
         }
